@@ -529,11 +529,34 @@ func runC14(c *ctx, r *Report) error {
 	if !c.quick {
 		nV = 5000
 	}
-	return visitTie(c, r, nV, false, func(cs Case) (string, string) {
+	if err := visitTie(c, r, nV, false, func(cs Case) (string, string) {
 		names := []string{"prop-undefined", "filter-prop-undefined", "undefined-variable"}
 		if a, b := visitCodes(cs.Impl, names...), visitCodes(cs.Model, names...); a != b {
 			return "step-outputs-scope-differs-from-proved-rule", "the 'not defined' reports at the probes (" + a + ") differ from the proved scope rule (" + b + ")"
 		}
 		return "", ""
-	})
+	}); err != nil {
+		return err
+	}
+	// local reusable workflows inside a project, whole files: AL.ProjCall (rule workflow-call's interface checks, the typed
+	// inputs and the `needs.<job>.outputs` types of the expression rule, the cache between them) against the real LintFile;
+	// AL.Props.C14Proj states which entries are reported (undefined_input_iff, required_input_iff, required_secret_iff,
+	// inherit_checks_no_secret, typed_input_reported_iff, local_action_undefined_input_iff, local_action_missing_input_iff)
+	nP := 800
+	if !c.quick {
+		nP = 30000
+	}
+	if err := pjStandard(c, r, nP); err != nil {
+		return err
+	}
+	// action.yml → ActionMetadata (AL.ActionDecode; AL.Props.C14Decode.action_input_required_iff says what `Required` is)
+	nA := 1500
+	if !c.quick {
+		nA = 60000
+	}
+	if err := amStandard(c, r, nA); err != nil {
+		return err
+	}
+	r.Rule += fmt.Sprintf("; (5) %d generated caller workflows (1–5 jobs: calls of well-formed / trigger-less / unparseable / missing / directory / badly formatted / self specs with random subsets of declared and undeclared inputs — literal and placeholder values of every type — and secrets or `secrets: inherit`; jobs that need each other and read needs.<job>.outputs; steps that use each of 19 local actions — complete, without name / description, unknown branding, every runs.using with required / forbidden / missing-file combinations, unparseable, without metadata file — with declared / undeclared inputs and reads of steps.<id>.outputs) in a scratch repository, a third of them after the called workflows were linted by the same linter: every diagnostic of the real LintFile (rule workflow-call and the other AST rules one by one in order, rule expression as a sorted multiset) against the Lean models AL.ProjCall / AL.ProjAction (ops lintwfp / exprwfp); (6) %d generated action.yml files (two thirds well-typed by construction: every field of the metadata incl. runs.steps / args / env with nested and repeated keys, inputs with every spelling of required / default, ids that collide up to letter case) decoded by the real LocalActionsCache.FindMetadata and by AL.ActionDecode (op actionmeta)", nP, nA)
+	return nil
 }
